@@ -503,7 +503,8 @@ fn run_worker_capped(
                     }
                     // cases with an unlisted failing clause are all counted; their descriptions are kept up to a cap
                     let room = 200_000usize.saturating_sub(a.failing.len());
-                    if s.failing.len() > room {
+                    // (when VERIF_DUMP_FAILS asks for every failing case, listed ones arrive here too: not counted)
+                    if s.failing.len() > room && std::env::var("VERIF_DUMP_FAILS").is_err() {
                         a.unlisted_dropped += (s.failing.len() - room) as u64;
                     }
                     a.failing.extend(s.failing.into_iter().take(room));
@@ -901,6 +902,10 @@ pub fn driver_main(prop: Arc<dyn Prop>, tier: Tier) -> i32 {
     if let Err(e) = std::fs::write(&epath, serde_json::to_string_pretty(&ev).unwrap()) {
         eprintln!("machinery: cannot write evidence {epath:?}: {e}");
         return 2;
+    }
+    // a thorough run additionally keeps its own file, so that a later quick run does not erase what it covered
+    if tier == Tier::Thorough && std::env::var("VERIF_EVIDENCE_SUFFIX").is_err() {
+        let _ = std::fs::write(edir.join(format!("{id}-thorough.json")), serde_json::to_string_pretty(&ev).unwrap());
     }
 
     // report
